@@ -29,16 +29,29 @@ def _run(task):
     os.environ.setdefault("PYTHONHASHSEED", "0")
     install_poison()
     kind = task[0]
+    # one trace at a time, so that an exception inside a driver (a broken library returning something the driver's
+    # own bookkeeping cannot handle) loses that trace only; lost traces are reported, never silently dropped
+    import traceback
+    out = []
     if kind == "driver":
         _, name, seed, start, count, prop, kw = task
         mod = importlib.import_module("harness.drivers." + name)
-        return mod.generate(seed, count, prop=prop, start=start, **kw)
+        for i in range(start, start + count):
+            try:
+                out.extend(mod.generate(seed, 1, prop=prop, start=i, **kw))
+            except Exception:  # noqa: BLE001
+                out.append({"crashed": traceback.format_exc()[-1500:], "where": "driver %s seed %d trace %d" % (name, seed, i)})
+        return out
     if kind == "replay":
         _, fn_name, items, prop, start, kw = task
         from harness import replay
         fn = getattr(replay, fn_name)
-        return [fn(item, "%s-%s-%06d" % (prop, fn_name, start + i), prop, start + i, **kw)
-                for i, item in enumerate(items)]
+        for i, item in enumerate(items):
+            try:
+                out.append(fn(item, "%s-%s-%06d" % (prop, fn_name, start + i), prop, start + i, **kw))
+            except Exception:  # noqa: BLE001
+                out.append({"crashed": traceback.format_exc()[-1500:], "where": "replay %s item %d" % (fn_name, start + i)})
+        return out
     raise ValueError(kind)
 
 
@@ -53,6 +66,9 @@ def replay_tasks(fn_name, items, prop, kw=None, chunk=200):
     return [("replay", fn_name, items[s:s + chunk], prop, s, kw) for s in range(0, len(items), chunk)]
 
 
+CRASHES = []        # traces lost to exceptions inside drivers during the last run_tasks calls (read by check.py)
+
+
 def run_tasks(tasks, nproc=16):
     if not tasks:
         return []
@@ -60,5 +76,6 @@ def run_tasks(tasks, nproc=16):
     with ctx.Pool(processes=min(nproc, len(tasks)), maxtasksperchild=50) as pool:
         out = []
         for traces in pool.imap(_run, tasks):
-            out.extend(traces)
+            for t in traces:
+                (CRASHES if "crashed" in t else out).append(t)
     return out
